@@ -98,6 +98,12 @@ theorem writes_only_in_loop : writesOnlyInLoop pre loopBody post = true := by de
 /-- the keys of the dict the write loop iterates over are `output` or `output.joinpath(*name)` -/
 theorem module_keys_under_output : moduleKeyExprs.all keyUnderOutput = true ∧ moduleKeyExprs ≠ [] := by decide
 
+/-- `output` may be a relative path: the only step of `generate()` that runs inside `with chdir(output)` is
+`parser.parse()`; the module → file map, the `mkdir`s and the `open`s of the write loop are evaluated with the
+working directory the caller had, so `output.joinpath(*name)` denotes a file below the directory the caller
+named (and not below `<output>/<output>` or `<output's parent>/<output>`). -/
+theorem output_paths_resolved_in_callers_cwd : onlyParseInsideChdir pre loopBody post = true := by decide
+
 /-- Success or failure: a path that is not at or below the requested output has the same content
 (or absence) afterwards. Module paths are `out ++ name` (assumption: the components of `name`
 are plain names — C12 — so `joinpath` stays below `output`). -/
